@@ -95,6 +95,10 @@ static void proto(const std::string &line) {
   if (g_proto_fd >= 0) { ssize_t r = write(g_proto_fd, l.data(), l.size()); (void)r; }
   else if (g_inproc) g_inproc->lines.push_back(l.substr(0, l.size() - 1));
 }
+// in-process capture (used by the libFuzzer target, which runs the predicate without forking)
+static InProc g_capture;
+void capture_begin() { g_capture.lines.clear(); g_inproc = &g_capture; }
+std::string capture_end() { g_inproc = nullptr; std::string out; for (auto &l : g_capture.lines) if (l.size() > 2 && (l[0] == 'F' || l[0] == 'K')) out += l.substr(2) + "; "; return out; }
 void tag(const std::string &t) { proto("T " + t); }
 void nontrivial() { proto("N"); }
 void pre_known(const std::string &sig) { proto("P " + sig); }
